@@ -127,7 +127,7 @@ def SubR.recordFrag (s : SubR) (cfg : Cfg) (name : List Ch) : SubR :=
 
 def SubR.widthMinus (s : SubR) (cfg : Cfg) (prefixLen minW : Nat) : Except Err Nat :=
   let nw := s.width - prefixLen
-  if nw < minW && !cfg.overflow then .error .tooNarrow else .ok (max nw minW)
+  if (nw < minW || s.width < prefixLen) && !cfg.overflow then .error .tooNarrow else .ok (max nw minW)
 
 def SubR.intoLines (s : SubR) : Except Err (List RLine) :=
   andThen s.flushWrapping fun s1 => .ok s1.lines
